@@ -1015,6 +1015,11 @@ func genRegistry(o *hx.Out, pal []save.BlockState, back []level.BlocksState) {
 		o.Fail("C13.registry.gen", "cannot write %s: %v", path, werr)
 		return
 	}
+	if pregen {
+		// called by ./check BEFORE the Coq build of this run: the table is current from here on
+		o.Note("coq/Gen/Registry.v regenerated (%d rows, %d blocks)", len(pal), len(blocks))
+		return
+	}
 	// the Coq development of THIS run was checked against the previous table
 	o.Fail("C13.registry.gen-stale", "coq/Gen/Registry.v did not match the running registry and was rewritten (%d rows): run the check again", len(pal))
 }
@@ -1106,11 +1111,15 @@ func mutate(r *hx.Rng, img []byte) []byte {
 	return b
 }
 
+// pregen: `h_c13 <workdir> pregen` only regenerates coq/Gen/Registry.v (run by ./check before make)
+var pregen bool
+
 func main() {
+	pregen = len(os.Args) > 2 && os.Args[2] == "pregen"
 	o := hx.Open()
 	defer o.Close()
 	r := o.R
-	if !registry(o) {
+	if !registry(o) || pregen {
 		return
 	}
 	gsgb = fmt.Sprintf("%d %d", block.BitsPerBlock, biome.BitsPerBiome)
